@@ -9,7 +9,7 @@ C07 (shared with C02 / C01) — hand model of the exit-plane bookkeeping of
 The scalar tests and arguments (`exit_planes >= num_slices`, the three `range` arguments,
 `exit_planes[-1] != num_slices - 1`, the appended plane, the `None` default, the entrance tests, the
 flag test of the pointer loop) are the *generated* definitions of `Gen/ExitPlanes.lean`; the list
-plumbing around them is written here and tied by exhaustive correspondence (`harness/c07.py`).
+plumbing around them (and the explicit-tuple validation, a generator expression) is written here and tied by exhaustive correspondence (`harness/c07.py`).
 Core Lean only.
 -/
 import AbtemVerif.Gen.ExitPlanes
@@ -34,11 +34,21 @@ inductive ExitSpec where
   | tuple (l : List Int)
   deriving Repr, DecidableEq
 
-/-- `_validate_exit_planes` (explicit tuples are returned unchanged, exactly as the code does) -/
+/-- `any(b <= a for a, b in zip(planes[:-1], planes[1:]))` -/
+def notIncreasing : List Int → Bool
+  | a :: b :: rest => decide (b ≤ a) || notIncreasing (b :: rest)
+  | _ => false
+
+/-- the explicit-tuple check of `_validate_exit_planes`: ValueError unless the planes are strictly increasing slice
+indices between −1 (entrance plane) and `num_slices − 1`; the empty tuple (used for single slices) passes -/
+def tupleRejected (l : List Int) (n : Int) : Bool :=
+  notIncreasing l || (decide (0 < l.length) && (decide (l.headD 0 < -1) || decide (l.getLastD 0 ≥ n)))
+
+/-- `_validate_exit_planes` (accepted explicit tuples are returned unchanged) -/
 def validateExitPlanes (spec : ExitSpec) (n : Int) : Except String (List Int) :=
   match spec with
   | .none => .ok [vNonePlane n]
-  | .tuple l => .ok l
+  | .tuple l => if tupleRejected l n then .error "value_error" else .ok l
   | .int k =>
     if vTooLarge k n then .ok [vTooLargePlane k n]
     else
